@@ -29,6 +29,23 @@ FKS = ["f32", "f64"]
 ISIZE = {"i8": 1, "i16": 2, "i32": 4, "i64": 8, "u8": 1, "u16": 2, "u32": 4, "u64": 8}
 
 
+
+def _flag_get(V) -> bool:
+    """the validation switch as the field setters see it (a ContextVar today; any object with `get()` after a rewrite)"""
+    try:
+        return bool(V._VALIDATION_ENABLED.get())
+    except Exception:  # noqa: BLE001
+        return True
+
+
+def _flag_force_on(V):
+    """start a case with validation on, whatever an earlier case left behind (best effort: only a ContextVar can be set)"""
+    try:
+        V._VALIDATION_ENABLED.set(True)
+    except Exception:  # noqa: BLE001
+        pass
+
+
 def ilo(k):
     return -(2 ** (8 * ISIZE[k] - 1)) if k[0] == "i" else 0
 
@@ -422,7 +439,7 @@ def run_case(cid: str, case: Dict[str, Any]) -> Tuple[List[str], Dict[str, Any]]
     """case = {cls: name of the top class in World, path, field, fty, key, val, en, fill (bytes), alt}"""
     W = world()
     V = W.V
-    V._VALIDATION_ENABLED.set(True)
+    _flag_force_on(V)
     cls = getattr(W, case["cls"]) if isinstance(case["cls"], str) else W.structs[case["cls"]]
     top = cls()
     size = ctypes.sizeof(top)
@@ -446,7 +463,7 @@ def run_case(cid: str, case: Dict[str, Any]) -> Tuple[List[str], Dict[str, Any]]
     except Exception as e:  # noqa: BLE001 every exception is an observation
         out = "err " + err_name(e)
     finally:
-        V._VALIDATION_ENABLED.set(True)
+        _flag_force_on(V)
     post = bytes(top)
     outside = pre[:off] != post[:off] or pre[off + fsz:] != post[off + fsz:]
     rb = read_back(W, target, name, fty, key) if out == "ok" else []
@@ -480,7 +497,7 @@ def run_ctx(cid: str, evs: List[str]) -> List[str]:
     out-of-range assignment is refused (behavioural flag) - and that the context variable says the same."""
     W = world()
     V = W.V
-    V._VALIDATION_ENABLED.set(True)
+    _flag_force_on(V)
     flags: List[str] = []
 
     keeper = W.N()                 # one message that lives through the whole history
@@ -511,7 +528,7 @@ def run_ctx(cid: str, evs: List[str]) -> List[str]:
             refused = False
         except ValueError:
             refused = True
-        var = bool(V._VALIDATION_ENABLED.get())
+        var = bool(_flag_get(V))
         # "validation is in force whenever execution is not inside a disable block": also for array views that were
         # bound earlier, wherever they were bound
         for nm in ("a_i8", "ai4", "af4", "ab6", "sa"):
@@ -544,7 +561,7 @@ def run_ctx(cid: str, evs: List[str]) -> List[str]:
     try:
         body(0)
     finally:
-        V._VALIDATION_ENABLED.set(True)
+        _flag_force_on(V)
     return [f"CTX {cid}", "EV " + " ".join(evs), "FLAGS " + " ".join(flags), "END"]
 
 
@@ -573,7 +590,7 @@ def _loc_of(W: World, top, obj) -> Tuple[int, tuple]:
 def run_prog(cid: str, prog: Dict[str, Any]) -> Tuple[List[str], Dict[str, Any]]:
     W = world()
     V = W.V
-    V._VALIDATION_ENABLED.set(True)
+    _flag_force_on(V)
     cls = getattr(W, prog["cls"])
     top = cls()
     size = ctypes.sizeof(top)
@@ -614,7 +631,7 @@ def run_prog(cid: str, prog: Dict[str, Any]) -> Tuple[List[str], Dict[str, Any]]
             raise NameError(f"x_{via}")              # nothing is attempted, nothing is recorded (as in the model)
         off, fty = _loc_of(W, top, tgt)
         value = mat_value(W, val, 0)
-        flagvar = bool(V._VALIDATION_ENABLED.get())
+        flagvar = bool(_flag_get(V))
         pre = bytes(top)
         out = "ok"
         exc = None
@@ -634,10 +651,10 @@ def run_prog(cid: str, prog: Dict[str, Any]) -> Tuple[List[str], Dict[str, Any]]
         post = bytes(top)
         rb = []
         if exc is None:
-            saved = V._VALIDATION_ENABLED.get()
+            saved = _flag_get(V)
             target, _ = resolve(W, top, tgt["path"])
             rb = read_back(W, target, tgt["field"], fty, key)
-            assert V._VALIDATION_ENABLED.get() == saved
+            assert _flag_get(V) == saved
         info["assign"] += 1
         info["outside"] += depth == 0
         info["raised"] += exc is not None
@@ -674,9 +691,9 @@ def run_prog(cid: str, prog: Dict[str, Any]) -> Tuple[List[str], Dict[str, Any]]
             run(prog["stmts"], 0)
         except Exception:  # noqa: BLE001 the program as a whole ended by an exception
             info["ended_by_exception"] = True
-        flag = bool(V._VALIDATION_ENABLED.get())
+        flag = bool(_flag_get(V))
     finally:
-        V._VALIDATION_ENABLED.set(True)
+        _flag_force_on(V)
     lines += recs
     lines += [f"FLAG {1 if flag else 0}", "FINAL " + hx(bytes(top)), "END"]
     return lines, info
